@@ -426,6 +426,16 @@ func genEmptyRunLayout(r *rand.Rand) []int {
 	return layout
 }
 
+/* the paging scripts judged by their predicates alone (properties about returning normally) */
+func init() {
+	groups["C10P"] = group{gen: func(r *rand.Rand, n int, emit func(Op)) {
+		genC10(r, n, func(op Op) {
+			op["predicate_only"] = true
+			emit(op)
+		})
+	}}
+}
+
 func genC10(r *rand.Rand, n int, emit func(Op)) {
 	for i := 0; i < n; i++ {
 		tag := 0
